@@ -1002,34 +1002,57 @@ def clone(obj, memo=None, depth=0):
     return r
 
 
-def swap_frames_in_place(S):
-    """a legitimate in-place update of the caller's own objects (an involution, so applying it twice restores the pool): the first two
-    frames of every trajectory exchange their coordinates, and every per-frame field exchanges its first two time slices.  Timesteps,
-    boxes, particle numbers, shapes and object identities all stay what they were -- only the values change."""
-    n = 0
+def update_in_place(S, mode):
+    """a legitimate in-place update of the caller's own objects; returns [(array, saved copy)] for undoing it.  Timesteps, particle
+    numbers, shapes and object identities stay what they were -- only values change:
+      frames : the first two frames of every trajectory exchange their coordinates, every per-frame field its first two time slices
+      dilate : every trajectory is dilated by 2 or 1/2 (coordinates, cell matrix, lengths, bounds -- exact in binary arithmetic)
+      axes   : x and y are exchanged in every trajectory (coordinates, cell matrix, lengths, bounds)"""
+    saved = []
+
+    def put(a, new):
+        if a is None or not a.flags.writeable:
+            return
+        saved.append((a, a.copy()))
+        a[...] = new
+
     for k, v in S.pool.items():
-        if hasattr(v, "snapshots") and len(v.snapshots) >= 2:
-            a, b = v.snapshots[0].positions, v.snapshots[1].positions
-            if a.shape == b.shape and a.flags.writeable and b.flags.writeable:
-                t = a.copy()
-                a[...] = b
-                b[...] = t
-                n += 1
-        elif isinstance(v, np.ndarray) and v.ndim >= 2 and v.shape[0] == S.T and v.flags.writeable and re.match(r"(scal|cplx|bool|vec|ten)\d", k):
-            t = v[0].copy()
-            v[0] = v[1]
-            v[1] = t
-            n += 1
-    return n
+        if hasattr(v, "snapshots"):
+            if mode == "frames" and len(v.snapshots) >= 2:
+                a, b = v.snapshots[0].positions, v.snapshots[1].positions
+                if a.shape == b.shape and a.flags.writeable and b.flags.writeable:
+                    t = a.copy()
+                    put(a, b)
+                    put(b, t)
+            elif mode == "dilate" and not k.startswith("orient"):
+                f = 2.0 if len(k) % 2 else 0.5
+                for sn in v.snapshots:
+                    if all(x is None or x.flags.writeable for x in (sn.positions, sn.hmatrix, sn.boxlength, sn.boxbounds, sn.realbounds)):
+                        for x in (sn.positions, sn.hmatrix, sn.boxlength, sn.boxbounds, sn.realbounds):
+                            if x is not None:
+                                put(x, x * f)
+            elif mode == "axes" and not k.startswith(("orient", "xt")):
+                for sn in v.snapshots:
+                    if all(x is None or x.flags.writeable for x in (sn.positions, sn.hmatrix, sn.boxlength, sn.boxbounds)) and sn.realbounds is None:
+                        ax = [1, 0] + list(range(2, sn.positions.shape[1]))
+                        put(sn.positions, sn.positions[:, ax].copy())
+                        put(sn.hmatrix, sn.hmatrix[ax][:, ax].copy())
+                        put(sn.boxlength, sn.boxlength[ax].copy())
+                        put(sn.boxbounds, sn.boxbounds[ax].copy())
+        elif mode == "frames" and isinstance(v, np.ndarray) and v.ndim >= 2 and v.shape[0] == S.T and v.flags.writeable and re.match(r"(scal|cplx|bool|vec|ten)\d", k):
+            t = v.copy()
+            t[0], t[1] = v[1], v[0]
+            put(v, t)
+    return saved
 
 
-def updated_in_place_monitor(ctx, S, step, sd, k):
+def updated_in_place_monitor(ctx, S, step, sd, k, mode):
     """after the caller updated its arrays in place, a call on the SAME objects must return what a call on fresh objects holding the same
     values returns (no result may be remembered under an object's identity, timestep, shape or box)"""
     import copy
     if "_rec" not in step:
         return
-    swap_frames_in_place(S)
+    saved = update_in_place(S, mode)
     try:
         o1, o2 = os.path.join(sd, f"o{k}u1"), os.path.join(sd, f"o{k}u2")
         os.makedirs(o1), os.makedirs(o2)
@@ -1047,14 +1070,16 @@ def updated_in_place_monitor(ctx, S, step, sd, k):
         except Exception as e:  # noqa: BLE001
             r_fresh = ("raised", type(e).__name__)
         if isinstance(r_fresh, tuple) and r_fresh[:1] == ("raised",):
-            ctx.skip("updated_in_place")        # the swapped configuration is outside this entry point's domain (e.g. empty mobility subset)
+            ctx.skip("updated_in_place")        # the updated configuration is outside this entry point's domain (e.g. empty mobility subset)
             return
         ctx.check("updated_in_place", same(r_same, r_fresh), f"{step['name']}/stale_after_in_place_update",
-                  lambda: f"{step['name']} {step['par']}: after the caller's arrays were updated in place (frames 0 and 1 exchanged) the call on the same "
+                  lambda: f"{step['name']} {step['par']}: after the caller's arrays were updated in place ({mode}) the call on the same "
                           f"objects differs from the call on fresh objects with the same values: {describe_diff(r_fresh, r_same)}",
-                  {"step": step["name"], "par": step["par"]})
+                  {"step": step["name"], "par": step["par"], "update": mode})
+        ctx.count("updated_in_place_" + mode)
     finally:
-        swap_frames_in_place(S)
+        for a, old in reversed(saved):
+            a[...] = old
 
 
 def plan(S, rng, R, notes=None):
@@ -1112,8 +1137,9 @@ def program(ctx, rng, wd, R, pno, fresh_replay=False):
                  sample={"step": step["name"], "parameters": step["par"], "program": pno, "position": k})
         if ok:
             results[k] = res
-        if ok and np.random.default_rng(key + [k, 4242]).random() < 0.3:
-            updated_in_place_monitor(ctx, S, step, sd, k)
+        u = np.random.default_rng(key + [k, 4242]).random()
+        if ok and u < 0.3:
+            updated_in_place_monitor(ctx, S, step, sd, k, "frames" if u < 0.12 else ("dilate" if u < 0.21 else "axes"))
         # instance reuse: the same method twice on ONE instance must agree with a fresh instance; and after a history of OTHER
         # method calls on one instance the method must still return what a fresh instance returns
         if ok and step["reuse"]:
